@@ -653,6 +653,17 @@ func (s *Service) streamResponse(clientCtx, upstreamCtx context.Context, w http.
 	readDeadline := time.NewTimer(s.configuration.GetReadTimeout())
 	defer readDeadline.Stop()
 
+	// readDeadline is only looked at between reads, but a backend that stops sending keeps
+	// the loop blocked inside Read. The watchdog is armed for the same interval and interrupts
+	// the blocked Read by closing the response body, so a stalled stream ends after the read
+	// timeout instead of hanging until the client gives up.
+	var stalled atomic.Bool
+	watchdog := time.AfterFunc(s.configuration.GetReadTimeout(), func() {
+		stalled.Store(true)
+		_ = resp.Body.Close()
+	})
+	defer watchdog.Stop()
+
 	for {
 		// Check for context cancellation
 		if err := s.checkContexts(clientCtx, upstreamCtx, readDeadline, state, rlog); err != nil {
@@ -670,11 +681,15 @@ func (s *Service) streamResponse(clientCtx, upstreamCtx context.Context, w http.
 			}
 		}
 		readDeadline.Reset(s.configuration.GetReadTimeout())
+		watchdog.Reset(s.configuration.GetReadTimeout())
 
 		// Read and process data
 		if err := s.processStreamData(resp, buffer, state, w, isStreaming, rc, rlog); err != nil {
 			if errors.Is(err, io.EOF) {
 				return state.totalBytes, state.lastChunk, nil
+			}
+			if stalled.Load() {
+				return state.totalBytes, state.lastChunk, fmt.Errorf("read timeout after %v", s.configuration.GetReadTimeout())
 			}
 			rlog.Debug("read error during streaming", "error", err, "bytes_read", state.totalBytes)
 			return state.totalBytes, state.lastChunk, err
